@@ -590,7 +590,7 @@ def spy_tu(decls):
 
 
 # leading scalar arguments used to exhaust registers before the aggregate: (n longs, n doubles)
-PRE_ARGS = [(0, 0), (5, 0), (6, 0), (0, 7), (0, 8), (4, 6), (5, 7), (4, 0), (3, 7)]
+PRE_ARGS = [(0, 0), (5, 0), (6, 0), (0, 7), (0, 8), (4, 6), (5, 7), (4, 0), (3, 7), (7, 0), (8, 8), (6, 9)]
 
 
 def sig_tu(decls):
@@ -644,6 +644,7 @@ def parse_sigs(mir_text):
 
 PASS_PRELUDE = r'''
 #include <string.h>
+#include <stdarg.h>
 struct c08_tl { long x; };
 struct c08_td { double x; };
 static void c08_pat (void *p, unsigned long n, unsigned k) {
@@ -706,7 +707,8 @@ TAKE_BODY = '{ return sum%d (&a) * 3 + (unsigned long) tl.x * 5 + (unsigned long
 def pass_tus(decls):
     """returns (gcc library source, c2m main source).  Output lines of the c2m program:
     'P <i> <dir> ok|BAD' with dir: a (c2m caller -> gcc callee, argument), r (gcc callee -> c2m caller, return
-    value), A (gcc caller -> c2m callee, argument), R (c2m callee -> gcc caller, return value)"""
+    value), A (gcc caller -> c2m callee, argument), R (c2m callee -> gcc caller, return value),
+    v (c2m caller -> gcc variadic callee, va_arg), V (gcc caller -> c2m variadic callee)"""
     common, info = pass_common(decls)
     lib = [common]
     main = ['#include <stdio.h>', common]
@@ -721,6 +723,14 @@ def pass_tus(decls):
                    'struct c08_td td = {41.5}; fill%d (&v, k); return cb (%s); }' % (i, d['ptypes'], tn, i, call_args))
         lib.append('unsigned long g_call_give%d (%s (*cb) (unsigned), unsigned k) { %s v = cb (k); return sum%d (&v); }'
                    % (i, tn, tn, i))
+        vtake = ('(int n, ...) { va_list ap; %s a; long post; va_start (ap, n); a = va_arg (ap, %s); post = va_arg (ap, long); '
+                 'va_end (ap); return sum%d (&a) * 3 + (unsigned long) post * 11 + n; }' % (tn, tn, i))
+        lib.append('unsigned long g_vtake%d %s' % (i, vtake))
+        lib.append('unsigned long g_call_vtake%d (unsigned long (*cb) (int, ...), unsigned k) { %s v; fill%d (&v, k); return cb (2, v, 55L); }'
+                   % (i, tn, i))
+        main.append('extern unsigned long g_vtake%d (int n, ...);' % i)
+        main.append('extern unsigned long g_call_vtake%d (unsigned long (*cb) (int, ...), unsigned k);' % i)
+        main.append('unsigned long c_vtake%d %s' % (i, vtake))
         main.append('extern unsigned long g_take%d (%s);' % (i, d['params']))
         main.append('extern %s g_give%d (unsigned k);' % (tn, i))
         main.append('extern unsigned long g_call_take%d (unsigned long (*cb) (%s), unsigned k);' % (i, d['ptypes']))
@@ -735,6 +745,10 @@ def pass_tus(decls):
         main.append('  fill%d (&v, k + 2); e = c_take%d (%s); r = g_call_take%d (c_take%d, k + 2); printf ("P %d A %%s\\n", r == e ? "ok" : "BAD");'
                     % (i, i, call_args, i, i, i))
         main.append('  fill%d (&v, k + 3); r = g_call_give%d (c_give%d, k + 3); printf ("P %d R %%s\\n", r == sum%d (&v) ? "ok" : "BAD");'
+                    % (i, i, i, i, i))
+        main.append('  fill%d (&v, k + 4); e = c_vtake%d (2, v, 55L); r = g_vtake%d (2, v, 55L); printf ("P %d v %%s\\n", r == e ? "ok" : "BAD");'
+                    % (i, i, i, i))
+        main.append('  fill%d (&v, k + 5); e = c_vtake%d (2, v, 55L); r = g_call_vtake%d (c_vtake%d, k + 5); printf ("P %d V %%s\\n", r == e ? "ok" : "BAD");'
                     % (i, i, i, i, i))
         main.append('}')
         body.append('  pass%d ();' % i)
